@@ -73,16 +73,35 @@ def _array_gc_order(v, events):
     return any(val in deleted and (deleted[val] - {c}) for c, val in anchors)
 
 
+def _compaction_pair(v, events):
+    """For a CompactionKeepsContent violation: (content of the never-collecting reference at the head of the old
+    log, content the compacted log yields), else None."""
+    if v["tag"] != "CompactionKeepsContent":
+        return None
+    ev = v.get("event") or {}
+    if ev.get("ev") != "Ref":
+        return None
+    before = None
+    for e in events:
+        if e["ev"] == "Compact" and e.get("ok"):
+            cut = before
+        if e["ev"] == "Ref":
+            if e.get("s") == ev.get("s") and e.get("epoch") == ev.get("epoch") and e.get("content") == ev.get("content"):
+                break
+            before = e["content"] if e.get("epoch") != ev.get("epoch") else before
+    return (before, ev.get("content")) if before is not None else None
+
+
 def _text_gc_order(v, events):
     """KF-RGA-GC-ORDER (text): one client deletes text while another client
     inserts text in the same history, and the failure is a silent difference in
     the ORDER of the text only: every replica and the reference hold the same
     multiset of characters at the end."""
     import json as _json
-    if v["tag"] not in ("RefEquiv", "Converged", "BuildEquiv"):
+    if v["tag"] not in ("RefEquiv", "Converged", "BuildEquiv", "CompactionKeepsContent"):
         return False
-    if any(e.get("err") and "injected storage fault" not in e["err"] for e in events
-           if e["ev"] in ("Sync", "Attach", "Detach", "Ref", "Build", "Undo", "Redo")):
+    if any(e.get("err") and "injected storage fault" not in e["err"] and "epoch mismatch" not in e["err"] and "document is attached" not in e["err"]
+           for e in events if e["ev"] in ("Sync", "Attach", "Detach", "Ref", "Build", "Undo", "Redo")):
         return False
     deleters, inserters = set(), set()
     for e in events:
@@ -108,6 +127,10 @@ def _text_gc_order(v, events):
             return False
         return bag(a) == bag(b) and rest(a) == rest(b) and a.get("t") != b.get("t")
 
+    cp = _compaction_pair(v, events)
+    if v["tag"] == "CompactionKeepsContent":
+        # the compacted log freezes what the server's (collecting) rebuild shows; the reference never collects
+        return cp is not None and order_only(cp[1], cp[0])
     if ev.get("ev") == "Build":
         n = ev.get("s")
         return n in refs and order_only(ev.get("content"), refs[n])
@@ -275,9 +298,37 @@ def _undo_move_anchor(v, events):
 TRIGGERS = {"KF-ARRAY-GC-ORDER": _array_gc_order, "KF-TEXT-GC-ORDER": _text_gc_order, "KF-TREE-GC-ORDER": _tree_gc_order, "KF-UNDO-RESTORE-PEER-PURGED": _undo_restore_peer_purged, "KF-UNDO-ANCHOR-PURGED": _undo_array_anchor_peer, "KF-UNDO-MOVE-ANCHOR-PURGED": _undo_move_anchor}
 
 
+def _compaction_gc_order(prop, v, events):
+    """CompactionKeepsContent whose only difference is an ORDER (arrays, tree): the compacted log freezes what the
+    server's collecting rebuild shows while the reference never collects - the array / tree GC-order findings."""
+    import json as _json
+    cp = _compaction_pair(v, events)
+    if cp is None:
+        return None
+    if any(e.get("err") and not any(x in e["err"] for x in ("injected storage fault", "epoch mismatch", "document is attached"))
+           for e in events if e["ev"] in ("Sync", "Attach", "Detach", "Ref", "Build", "Undo", "Redo")):
+        return None
+    try:
+        a, b = _json.loads(cp[1]), _json.loads(cp[0])
+    except Exception:
+        return None
+    diff = [k for k in set(a) | set(b) if a.get(k) != b.get(k)]
+    if len(diff) != 1 or sorted(_json.dumps(a[diff[0]], sort_keys=True)) != sorted(_json.dumps(b[diff[0]], sort_keys=True)):
+        return None
+    want = {"a": "KF-ARRAY-GC-ORDER", "tr": "KF-TREE-GC-ORDER", "t": "KF-TEXT-GC-ORDER"}.get(diff[0])
+    editors = {e["c"] for e in events if e["ev"] == "Edit" and e.get("outcome") == "ok" and (e.get("op") or {}).get("k", "") != "setup"}
+    if want is None or len(editors) < 2:
+        return None
+    return next((f for f in open_findings(prop) if f["id"] == want), None)
+
+
 def attribute(prop, v, events, first=None):
     """Returns the id of the open finding whose trigger predicate explains v, or None."""
     v = dict(v, event=first)
+    if v["tag"] == "CompactionKeepsContent":
+        f = _compaction_gc_order(prop, v, events)
+        if f is not None:
+            return f
     for f in open_findings(prop):
         t = TRIGGERS.get(f["id"])
         if t and t(v, events):
